@@ -130,7 +130,9 @@ def judge_words(fa, ref, n):
                     seen2.append(tuple(getattr(s, "value", s) for s in w))
                     w.append("<edited by the caller>")
             core.LOG.count("C04.edited_while_enumerating")
-            if collections.Counter(seen2) != collections.Counter(exp):
+            plain = collections.Counter(tuple(getattr(s_, "value", s_) for s_ in w) for w in got if isinstance(w, list))
+            if plain == collections.Counter(exp) and collections.Counter(seen2) != collections.Counter(exp):
+                # (a plain enumeration that is already wrong is judged below, under its own name)
                 core.report(PROP, "get_accepted_words", "yielded-word-is-live",
                             {"n": n, "got": [list(map(repr, x)) for x in seen2[:6]]}, tags)
         except (core.StepBudgetExceeded, core.CaseTimeout):
